@@ -137,7 +137,7 @@ def sweep_part(chk, tier, seed):
             deep.append({"family": fam, "kind": kind, "d": 0, "s": 200000 if tier == "thorough" else 50000})
     allc = cells + deep
     cases = [{"k": "eval", "src": program(c["family"], c["d"]), "max_stack": c["s"], "manifest": "single"} for c in allc]
-    results = run_cases(cases, "c10_sweep", timeout_ms=60000)
+    results = run_cases(cases, "c10_sweep", timeout_ms=20000)
     table = {}
     for c, case, r in zip(allc, cases, results):
         out, val = outcome(r)
